@@ -718,6 +718,14 @@ int main(int argc, char** argv) {
             // whole program inside one 64K page (bkrep #imm8 takes the page of the end address from pc)
             bool page1 = g.chance(1, 2);
             u32 pc0 = page1 ? (u32)g.range(0x10000, 0x1FE00 - len) : (u32)g.range(0x100, 0xFE00 - len);
+            if (g.chance(1, 8)) {
+                // the loop instruction of the outermost loop ends on (or straddles) the 64K page boundary: everything it
+                // repeats lies in page 1, the prefix in page 0 (still valid for bkrep #imm8: the page of the block end is
+                // that of the first body word)
+                u32 rel = pr.is_rep ? (u32)pr.rep_addr + 1 : pr.loops[0].bk_addr + 2;
+                pc0 = 0x10000 - rel + (pr.is_rep ? 0 : (u32)g.below(2));
+                ctx.count("programs_with_loop_at_page_boundary");
+            }
             pr.pc0 = pc0;
             pr.end_marker = pc0 + len;
             auto rebase = [&](Seg& sg) {
